@@ -252,6 +252,28 @@ let run_batch (x : Sexp.t) : string =
                   L (List.map (fun (p, _) -> A (atom_of_bytes p)) (B.artifacts st))])
   | _ -> failwith "batch"
 
+(* ---- C20: the document store ----
+   input  ((disk (uri text) ...) (msgs (o uri text) (c uri text) (x uri) (r uri) ...))
+   output ((published (uri none | (uri (uri text) ...)) ...) (docs (uri text) ...)) *)
+let run_lsp (x : Sexp.t) : string =
+  let module M = Model_lsp in
+  let pair = function L [A u; A t] -> (bytes_of_atom u, bytes_of_atom t) | _ -> failwith "lsp pair" in
+  match x with
+  | L [L disk; L msgs] ->
+    let msg_of = function
+      | L [A "o"; A u; A t] -> M.Open (bytes_of_atom u, bytes_of_atom t)
+      | L [A "c"; A u; A t] -> M.Change (bytes_of_atom u, bytes_of_atom t)
+      | L [A "x"; A u] -> M.Close (bytes_of_atom u)
+      | L [A "r"; A u] -> M.Request (bytes_of_atom u)
+      | _ -> failwith "lsp msg" in
+    let (st, ps) = M.lsp_run (List.map pair disk) (List.map msg_of msgs) in
+    let store_s l = L (List.map (fun (u, t) -> L [A (atom_of_bytes u); A (atom_of_bytes t)]) l) in
+    to_string (L [L (List.map (fun (u, d) -> match d with
+                                  | None -> L [A (atom_of_bytes u); A "none"]
+                                  | Some w -> L [A (atom_of_bytes u); store_s w]) ps);
+                  store_s st.M.docs])
+  | _ -> failwith "lsp"
+
 let run mode (line : string) : string =
   let x = parse line in
   match mode with
@@ -306,6 +328,7 @@ let run mode (line : string) : string =
                A (string_of_int (int_of_n t.col)); A (string_of_int (int_of_n t.off))]) toks)))
      | _ -> failwith "lex")
   | "batch" -> run_batch x
+  | "lsp" -> run_lsp x
   | "zdec" -> (match x with A s -> string_of_z (z_of_string s) | _ -> failwith "zdec")
   | _ -> failwith ("mode " ^ mode)
 
